@@ -464,6 +464,12 @@ def openS (c : Cfg) (m : Method) : List Ev × Option St :=
     | some e, [], none => ((Http.parseInit (initBody c m).1).evs ++ [e], none)   -- nothing delivered yet: raised at open
     | _, _, _ => (openEvs m (Http.parseInit (initBody c m).1), some (session c m (Http.parseInit (initBody c m).1)))
 
+/-- open a stream and iterate it to its end (`for b in session`): enough `next`s for every buffered batch and every step -/
+def openIterate (c : Cfg) (m : Method) : List Ev :=
+  match openS c m with
+  | (oe, none) => oe
+  | (oe, some s0) => oe ++ (nextN c m.prog (s0.pend.length + m.prog.steps.length + 1) s0).2
+
 end HttpM
 
 end VgiVerif.C10
